@@ -53,6 +53,30 @@ CHECKS = {
         "jobs": [rapid("codec", "TestC06Dispatch", 6000, 40000), rapid("codec", "TestC06UnknownObjectType", 2000, 20000, shards=4)],
         "assumptions": ["a response item with operation 0 has no payload (outside the domain)", "tag 0 excluded from opaque payloads"],
     },
+    "C09": {
+        "level": "exploration",
+        "technique": "exhaustive enumeration of batches up to length 3 by the same generator + property-based testing (rapid) for longer batches, against an executable reference model of KMIP batch semantics",
+        "level_text": "All batches of length 0..3 over six item outcomes x four continuation options x four version modes x three batch-count offsets x three id modes are executed against a fresh BatchExecutor (exhaustive: true for that space) and longer random batches by rapid; a model written from the statement predicts item count, order, echoed operation and id, header count and version, status class per item, and the exact ordered set of handler invocations (each at most once, none after a stop, none for a rejected request).",
+        "level_note": "HandleRequest is called directly (no transport); result messages and reasons are not compared.",
+        "jobs": [plain("server", "TestC09Exhaustive"), rapid("server", "TestC09Random", 5000, 50000)],
+        "assumptions": ["a rejected request must yield exactly one failed item and run no handler; which reason it carries is not constrained"],
+    },
+    "C13": {
+        "level": "exploration",
+        "technique": "exhaustive enumeration of configurations (client sets x server sets x server behaviours x enforcement) over an in-memory transport with a scripted server; oracle = pure function of the configuration",
+        "level_text": "The configuration space is finite and enumerated completely (exhaustive: true): for each of 31 x 32 x 6 unenforced and 31 x 32 x 5 enforced configurations the client dials a scripted in-memory server, the adopted version is compared with the highest common version (or the 1.0 fallback, or the required failure), and the header version of two follow-up requests and of a clone is read at the server.",
+        "level_note": "For the library's own executor as server, a failure to connect is tolerated when the executor rejects the discovery message itself (1.1 not in its set); a wrong adoption never is.",
+        "jobs": [plain("client", "TestC13Negotiation", timeout_s={"quick": 600, "thorough": 900})],
+        "assumptions": ["an executor cannot be restricted to the empty set (it falls back to its default): that sub-case is skipped for the library-executor behaviour"],
+    },
+    "C19": {
+        "level": "exploration",
+        "technique": "property-based testing (rapid) over generated stage programs, trace equality against a recursive reference interpreter, concurrent requests sharing the chain",
+        "level_text": "Generated-program exploration: every stage of a chain is a small program over its continuation (0..3 calls, substituted message, derived context, last/first/substituted/error result); the same programs are run through the real client chain (scripted in-memory server as transport), the server message chain and the server batch-item chain, and through a 30-line recursive interpreter of the compositional semantics; event traces and the caller's result must be equal for every concurrent request.",
+        "level_note": "For the client chain the context reaching the transport is not observable; core executions are counted at the scripted server. Batch-item stages return a non-nil item together with an error, as that API requires.",
+        "jobs": [dict(rapid("server", "TestC19Chains", 4000, 30000), race=True)],
+        "assumptions": [],
+    },
     "C14": {
         "level": "exploration",
         "technique": "property-based testing (rapid): keys constructed from generated primes/scalars, round trip through the client's register builders, message transport in three encodings and the extraction accessors, oracle key.Equal; accessor totality on generated and degraded decodable objects",
